@@ -1,5 +1,89 @@
-"""Driver (b) for C01 / C12: real schedulers on the ScriptedBackend (filled in below)."""
+"""Driver (b) for C01 / C12: REAL schedulers of /repo (built from their classes) drive the real Tuner on the
+ScriptedBackend; workers emit scripted metric curves (metric "m", resource "epoch" = number of reports so
+far), completions, failures and external stops at scripted points. The recorded call trace is judged by the
+independent Python checkers of tuner_cases (budget / ids / life cycle / notifications for C01; exit, finally
+block, counters, overshoot, failure limit for C12). No model comparison here: the scheduler's answers are
+not scripted."""
+import random
+
+import scripted
+import tuner_cases as tc
+
+MAX_T = 9
+
+
+def build_scheduler(name, seed, mode):
+    from syne_tune.config_space import randint, uniform
+    space = {"x": randint(0, 1000), "lr": uniform(0.0, 1.0)}
+    kw = dict(metric="m", mode=mode, random_seed=seed)
+    if name == "fifo_random":
+        from syne_tune.optimizer.schedulers.fifo import FIFOScheduler
+        return FIFOScheduler(space, searcher="random", **kw)
+    if name in ("hyperband_stopping", "hyperband_promotion"):
+        from syne_tune.optimizer.schedulers.hyperband import HyperbandScheduler
+        return HyperbandScheduler(space, searcher="random", type=name.split("_")[1], resource_attr="epoch", max_t=MAX_T,
+                                  grace_period=1, reduction_factor=3, **kw)
+    if name == "median_rule":
+        from syne_tune.optimizer.schedulers.fifo import FIFOScheduler
+        from syne_tune.optimizer.schedulers.median_stopping_rule import MedianStoppingRule
+        return MedianStoppingRule(scheduler=FIFOScheduler(space, searcher="random", **kw), resource_attr="epoch",
+                                  metric="m", grace_time=1, grace_population=2)
+    if name == "pbt":
+        from syne_tune.optimizer.schedulers.pbt import PopulationBasedTraining
+        return PopulationBasedTraining(space, resource_attr="epoch", max_t=MAX_T, population_size=3,
+                                       perturbation_interval=2, **kw)
+    if name == "sync_hyperband":
+        from syne_tune.optimizer.schedulers.synchronous import SynchronousGeometricHyperbandScheduler
+        return SynchronousGeometricHyperbandScheduler(space, searcher="random", resource_attr="epoch",
+                                                      max_resource_level=MAX_T, grace_period=1, reduction_factor=3, **kw)
+    raise ValueError(name)
+
+
+SCHEDULERS = ["fifo_random", "hyperband_stopping", "hyperband_promotion", "median_rule", "pbt", "sync_hyperband"]
+
+
+def gen_real_case(rng):
+    name = rng.choice(SCHEDULERS)
+    params = dict(n_workers=rng.choice([1, 2, 3, 4, 6]), wait=rng.random() < 0.4,
+                  max_failures=rng.choice([0, 1, 3, 50]), criterion=tc.gen_criterion(rng, rich=rng.random() < 0.6))
+    params["async"] = rng.random() < 0.8
+    profile = dict(polls=rng.choice([6, 12, 25, 40]), max_reports=rng.choice([1, 2, 3]), ts_jitter=0,
+                   dt=rng.choice([0.0, 1.0]), max_epochs=MAX_T, p_complete=0.02,
+                   p_fail=rng.choice([0.0, 0.03, 0.1]), p_stop_ext=rng.choice([0.0, 0.02]),
+                   p_stopping=rng.choice([0.0, 0.03]))
+    return dict(kind="real", scheduler=name, mode=rng.choice(["min", "max"]), sched_seed=rng.randrange(1000),
+                params=params, profile=profile, seed=rng.getrandbits(48))
+
+
+def run_real_case(case):
+    if case.get("record") is not None:
+        script = scripted.Script.from_record(case["record"])
+    else:
+        script = scripted.Script(random.Random(case["seed"]), case["profile"])
+    out = scripted.run_tuner(case["params"], script,
+                             scheduler_factory=lambda: build_scheduler(case["scheduler"], case["sched_seed"], case["mode"]))
+    out["record"] = script.record()
+    return out
 
 
 def run_real(ctx, checker, replay_cases):
-    return
+    cases = replay_cases if replay_cases is not None else [gen_real_case(ctx.rng) for _ in range(ctx.n(90, 2500))]
+    for case in cases:
+        out = run_real_case(case)
+        if out["aborted"]:
+            ctx.h("real_outcome", "aborted")
+            continue
+        rep = dict(kind="real", scheduler=case["scheduler"], mode=case["mode"], sched_seed=case["sched_seed"],
+                   params=case["params"], record=out["record"])
+        ctx.count(rep, nontrivial=tc.nontrivial(out))
+        ctx.traces_validated += 1
+        ctx.h("real_scheduler", case["scheduler"])
+        ctx.h("real_outcome", out["outcome"][0] if out["outcome"][0] != "exception" else "exception:" + out["outcome"][1])
+        for ev in out["trace"]:
+            if ev[0] == "s_result":
+                ctx.h("real_decisions", ev[3])
+            elif ev[0] == "s_suggest":
+                ctx.h("real_suggest", "none" if ev[2] is None else ev[2][0])
+        for what, sig in checker(case["params"], out):
+            sig = dict(sig, scheduler=case["scheduler"])
+            ctx.violation("property", "[%s] %s" % (case["scheduler"], what), case=rep, signature=sig)
